@@ -106,32 +106,46 @@ def initSearch (sp : Space) (c : Call) (d : DState σ) : Except Err CState := do
          mem := mem
          nInitsNorm := min (d.nInits - d.nInitTotal) c.nIter }
 
+/-- outcome of asking for the objective's result at a parameter set: fresh call or memory hit -/
+structure Eval where
+  res : Res
+  dur : Rat            -- virtual time spent in the objective (0 on a memory hit)
+  fresh : Bool         -- the objective was really called
+  mem : Dict Res       -- memory dictionary afterwards
+  calls : List Pos     -- memory keys really evaluated in this search call, afterwards
+deriving Repr, Inhabited
+
+/-- the optional `Memory.memory` wrapper around the objective; reads the call counter, the row count (= step index),
+    the memory dictionary and the log of really evaluated keys -/
+def evalAt (sp : Space) (obj : Obj) (c : Call) (nCalls nRows : Nat) (mem : Dict Res) (calls : List Pos)
+    (value : Value) : Except Err Eval :=
+  if c.memory = .off then
+    let r := obj nCalls nRows value
+    pure { res := r.1, dur := r.2, fresh := true, mem := mem, calls := calls }
+  else do
+    let value' ← para2value sp.names (value2para sp.names value)
+    let keyN ← value2position sp.dims value'
+    let key : Pos := keyN.map Int.ofNat
+    match mem.get? key with
+    | some res => pure { res := res, dur := 0, fresh := false, mem := mem, calls := calls }
+    | none =>
+      let r := obj nCalls nRows value
+      pure { res := r.1, dur := r.2, fresh := true, mem := Dict.set mem key r.1, calls := calls ++ [key] }
+
+/-- the state after one evaluation -/
+def afterEval (sp : Space) (d : DState σ) (cs : CState) (value : Value) (e : Eval) : DState σ × CState :=
+  ({ d with rows := d.rows ++ [rowOf e.res (value2para sp.names value)]
+            nCalls := d.nCalls + (if e.fresh then 1 else 0)
+            clock := d.clock + e.dur
+            evalT := d.evalT ++ [e.dur] },
+   { cs with mem := e.mem, calls := e.calls, fresh := cs.fresh ++ [e.fresh] })
+
 /-- the score function of `ResultsManager` around the optional `Memory` wrapper -/
 def scoreStep (sp : Space) (obj : Obj) (c : Call) (d : DState σ) (cs : CState) (pos : Pos) :
     Except Err (F × DState σ × CState) := do
   let value ← position2value sp.dims pos
-  let para := value2para sp.names value
-  if c.memory = .off then
-    let (res, dur) := obj d.nCalls d.rows.length value
-    pure (res.score,
-          { d with rows := d.rows ++ [rowOf res para], nCalls := d.nCalls + 1, clock := d.clock + dur
-                   evalT := d.evalT ++ [dur] },
-          { cs with fresh := cs.fresh ++ [true] })
-  else do
-    let value' ← para2value sp.names para
-    let keyN ← value2position sp.dims value'
-    let key : Pos := keyN.map Int.ofNat
-    match cs.mem.get? key with
-    | some res =>
-      pure (res.score,
-            { d with rows := d.rows ++ [rowOf res para], evalT := d.evalT ++ [0] },
-            { cs with fresh := cs.fresh ++ [false] })
-    | none =>
-      let (res, dur) := obj d.nCalls d.rows.length value
-      pure (res.score,
-            { d with rows := d.rows ++ [rowOf res para], nCalls := d.nCalls + 1, clock := d.clock + dur
-                     evalT := d.evalT ++ [dur] },
-            { cs with mem := Dict.set cs.mem key res, calls := cs.calls ++ [key], fresh := cs.fresh ++ [true] })
+  let e ← evalAt sp obj c d.nCalls d.rows.length cs.mem cs.calls value
+  pure (e.res.score, afterEval sp d cs value e)
 
 def pbarUpdate (c : Call) (p : PBar) (score : F) (pos : Pos) (i : Nat) : PBar :=
   if c.lvl1 then p.update1 score pos i else p.update0 score pos i
